@@ -85,7 +85,13 @@ func normCell(v ssa.Value) ssa.Value {
 		}
 		al, ok := u.X.(*ssa.Alloc)
 		if !ok {
-			return v
+			// a captured variable read inside the closure: the cell is the binding in the enclosing function
+			if fv, isFV := u.X.(*ssa.FreeVar); isFV {
+				al = freeVarBinding(fv)
+			}
+			if al == nil {
+				return v
+			}
 		}
 		s := soleStoreAny(al)
 		if s == nil {
@@ -94,6 +100,42 @@ func normCell(v ssa.Value) ssa.Value {
 		v = s
 	}
 	return v
+}
+
+// freeVarBinding: the Alloc bound to a closure's free variable, when every MakeClosure of that function binds an Alloc
+// and there is exactly one MakeClosure.
+func freeVarBinding(fv *ssa.FreeVar) *ssa.Alloc {
+	fn := fv.Parent()
+	if fn == nil || fn.Parent() == nil {
+		return nil
+	}
+	idx := -1
+	for i, f := range fn.FreeVars {
+		if f == fv {
+			idx = i
+		}
+	}
+	if idx < 0 {
+		return nil
+	}
+	var found *ssa.Alloc
+	n := 0
+	for _, b := range fn.Parent().Blocks {
+		for _, ins := range b.Instrs {
+			mc, ok := ins.(*ssa.MakeClosure)
+			if !ok || mc.Fn != ssa.Value(fn) || idx >= len(mc.Bindings) {
+				continue
+			}
+			n++
+			if al, ok := mc.Bindings[idx].(*ssa.Alloc); ok {
+				found = al
+			}
+		}
+	}
+	if n == 1 {
+		return found
+	}
+	return nil
 }
 
 // soleStoreAny: the single value ever stored into the cell, counting stores made through closures' free variables.
@@ -1159,8 +1201,6 @@ var guardAssertReviewed = map[string]string{
 	"(*compiler).parseExpression:call:parseExpression.(*nodeFunctionLiteral)":            "argument is FunctionDeclaration.Function, an *ast.FunctionLiteral: compiled to *nodeFunctionLiteral",
 	"(*compiler).parse:call:parseExpression.(*nodeFunctionLiteral)":                      "argument is FunctionDeclaration.Function, an *ast.FunctionLiteral: compiled to *nodeFunctionLiteral",
 	"builtinJSONStringifyWalk:object.value.(Value)":                                      "under `case classBooleanName`: every constructor of class Boolean (newPrimitiveObject, the Boolean.prototype literal) stores a Value payload (CLASS-PAYLOAD)",
-	"(*runtime).clone:property.value.(Value)":                                            "global property `eval` is a data property holding the eval function object in every runtime (SHAPE-es5) and clones keep payload types (CLONE-fields)",
-	"(*runtime).clone:Value.value.(*object)":                                             "global property `eval` holds a function object (SHAPE-es5: kind valueObject)",
 	"newContext:property.value.(Value)":                                                  "global property `eval` is the data property built by the literal three statements above (SHAPE-es5)",
 	"newContext:Value.value.(*object)":                                                   "global property `eval` holds a function object (SHAPE-es5)",
 	"(*runtime).cmplEvaluateNodeObjectLiteral:nodeProperty.value.(*nodeFunctionLiteral)": "property kinds get/set are built by the parser only with a FunctionLiteral value, which the compiler maps to *nodeFunctionLiteral",
